@@ -50,21 +50,21 @@ def st_expr_at(ev, st):
     return getattr(ev, '_sub', None) or st.expr(ev.node, ev.frame)
 
 
-def annotate(path):
+def annotate(path, heap=True):
     """replay the path and store on every cond/call/return event the substituted
     expression valid *at that point* (ev._sub) ; returns the final state"""
     def on(i, ev, st):
         if ev is None:
             return
         if ev.kind in ('cond', 'call'):
-            ev._sub = st.expr(ev.node, ev.frame)
+            ev._sub = st.expr(ev.node, ev.frame, heap=heap)
         elif ev.kind == 'return' and ev.a is not None and ev.a is not _UNKNOWN:
-            ev._sub = st.expr(ev.a, ev.frame)
+            ev._sub = st.expr(ev.a, ev.b or ev.frame, heap=heap)
         elif ev.kind == 'assign':
             ev._subt = st.expr(ev.a, ev.frame, heap=False) if not isinstance(ev.a, ast.Name) else ev.a
             ret, rfr = ev.b
-            ev._sub = st.expr(ret, rfr) if (ret is not None and ret is not _UNKNOWN) else None
-    return replay(path, on)
+            ev._sub = st.expr(ret, rfr, heap=heap) if (ret is not None and ret is not _UNKNOWN) else None
+    return replay(path, on, heap=heap)
 
 
 def ret_expr(path):
